@@ -186,7 +186,7 @@ def run(ctx, name, kind, **kw):
         t = toy.toy(*kw["key"])
         curve, dom = sigs.toy_lib_curve(t)
         n = dom.n
-        for d in range(1, n):
+        for d in gen.rotated(range(1, n), rng):      # all of them, starting anywhere: which scalar a fresh curve object sees first is part of the history
             for k in range(1, n):
                 for ev in range(0, 256, 256 // kw["ndig"]):
                     judge(ctx, curve, dom, d, k, bytes([ev]), True, "string" if (d + k + ev) % 2 else "der", "toy.recover", curve.name)
